@@ -81,7 +81,19 @@ def _gen_v3enveff(run):
     _write("v3enveff", out, _stats(res))
 
 
+def _gen_v2tabs(run):
+    res = vlib.run_tlc(run, "MC_V2", dump=True)
+    out = {"base": {}, "adj": {}}
+    for s in vlib.parse_dump(res["dump"]):
+        if s["kind"] in ("base", "adj"):
+            k = "%d,%d,%d|%d,%d,%d" % tuple(s["key"] + s["ex"])
+            out[s["kind"]][k] = {"spec": sorted(s["spec"]), "r2": sorted(s["r2"]), "neg": s["neg"]}
+    assert len(out["base"]) == 270 and len(out["adj"]) == 2268, (len(out["base"]), len(out["adj"]))
+    _write("v2tabs", out, _stats(res))
+
+
 BUILDERS = {
+    "v2tabs": _gen_v2tabs,
     "tables": _gen_tables,
     "v3base": _gen_v3base,
     "v3temporal": _gen_v3temporal,
